@@ -1,6 +1,6 @@
 """Properties not claimed, with the reason (DESIGN.md section 9)."""
 
-HOOK_COMMITS = []
+HOOK_COMMITS = ['210a631']
 
 NOT_APPLICABLE = {
     'C01': 'Both directions of the round trip go through serde_json, and the decode direction through decode_regular, which '
@@ -13,8 +13,6 @@ NOT_APPLICABLE = {
     'C13': 'Interning through FxHashMap<Arc<str>,u32>::entry and format!-based source-root joining over call histories on '
            'string pools: hash maps with symbolic keys and std::fmt are outside reach; nothing numeric remains.',
     'C14': 'pending: Hermes harnesses not yet registered',
-    'C15': 'pending: SourceView harnesses not yet registered',
-    'C16': 'pending: SourceView concurrency harness not yet registered',
     'C17': 'Needs a symbolic-offset substring through the identifier scanner for every token of the backwards walk; four '
            'prototype configurations (down to a 14-byte line with the scanner stubbed and per-loop bounds) exceeded 20 min.',
     'C18': 'Discovery is BufReader::lines + String + starts_with over >= 22-byte texts; data URLs go through serde_json, '
